@@ -31,26 +31,6 @@ func checkArbitrary(b []byte, cutSets [][]int) (panicRes *parseResult, diff stri
 		if ignoreWritten {
 			got.Written = ref.Written
 		}
-		if ref.Err == "invalid HTTP request" && got.Err == ref.Err {
-			// impl-mirrored: ReadMessages returns (nil, errInvalidHTTP) for an HTTP
-			// request without a command and thereby drops the messages it had already
-			// parsed from the same read; with other cuts they were delivered by an
-			// earlier read. Only for streams that end in THAT error (its text is shared
-			// with the malformed-request-line errors, which keep the messages) the
-			// comparison is reduced to the error and the agreement of the delivered
-			// messages on their common prefix; every other protocol error must leave
-			// messages, error and written bytes independent of the segmentation.
-			n := len(ref.Msgs)
-			if len(got.Msgs) < n {
-				n = len(got.Msgs)
-			}
-			a, b := ref, got
-			a.Msgs, b.Msgs = ref.Msgs[:n], got.Msgs[:n]
-			if d := diffResults(a, b); d != "" {
-				return nil, d, cuts
-			}
-			continue
-		}
 		if d := diffResults(ref, got); d != "" {
 			return nil, d, cuts
 		}
